@@ -204,6 +204,15 @@ class Interp:
             callee = self.ctx.folder.eval(e.func, self.module, env=env)
             if isinstance(callee, ClassRef) and not any(isinstance(a, ast.Starred) for a in e.args):
                 return Instance(callee.ci, [self.ev(a, env, depth) for a in e.args], {k.arg: self.ev(k.value, env, depth) for k in e.keywords if k.arg})
+        if isinstance(e, ast.Subscript):
+            base = self.ev(e.value, env, depth)
+            if isinstance(base, (str, bytes, bytearray, list, tuple, dict)):
+                if isinstance(e.slice, ast.Slice):
+                    lo = self.ev(e.slice.lower, env, depth) if e.slice.lower is not None else None
+                    hi = self.ev(e.slice.upper, env, depth) if e.slice.upper is not None else None
+                    st_ = self.ev(e.slice.step, env, depth) if e.slice.step is not None else None
+                    return base[lo:hi:st_]
+                return base[self.ev(e.slice, env, depth)]
         if isinstance(e, (ast.ListComp, ast.GeneratorExp, ast.SetComp)):
             out = []
 
